@@ -18,6 +18,14 @@ vars == <<l>>
 Unordered(cfg) == cfg.disc \in {"unordered", "heap"}
 SameContent(cfg, a, b) == IF Unordered(cfg) THEN SameBag(a, b) ELSE a = b
 
+\* the Pop / Dequeue sequence of the reloaded container.  Heap elements are logged as 10 * priority + id: elements that
+\* the comparator ties may leave a heap in either order (a heap is not stable, and a loader may lay the array out as it
+\* likes), so two drains of a heap are the same when they hold the same elements and agree position by position up to ties
+PrioOf(cfg, x) == IF cfg.cmp \in {"prio", "maxprio"} THEN x \div 10 ELSE x
+SameDrain(cfg, a, b) == IF cfg.disc = "heap"
+                        THEN SameBag(a, b) /\ \A i \in DOMAIN a : PrioOf(cfg, a[i]) = PrioOf(cfg, b[i])
+                        ELSE a = b
+
 \* ---- C11 ----------------------------------------------------------------------------------------
 C11(e) ==
   e.op = "RoundTrip" =>
@@ -27,8 +35,8 @@ C11(e) ==
     /\ e.eqmarshal = TRUE                                                \* identical to json.Marshal(container)
     /\ e.stable = TRUE                                                   \* the bytes stay what they were while other containers are serialised
     \* loading into a fresh container of the same kind and configuration gives an equivalent one
-    /\ e.loaderr = FALSE  /\ e.fsize = e.size  /\ SameContent(e.cfg, e.fresh, e.orig)  /\ e.fdrain = e.odrain
-    /\ e.loaderr2 = FALSE /\ e.fsize2 = e.size /\ SameContent(e.cfg, e.fresh2, e.orig) /\ e.fdrain2 = e.odrain
+    /\ e.loaderr = FALSE  /\ e.fsize = e.size  /\ SameContent(e.cfg, e.fresh, e.orig)  /\ SameDrain(e.cfg, e.fdrain, e.odrain)
+    /\ e.loaderr2 = FALSE /\ e.fsize2 = e.size /\ SameContent(e.cfg, e.fresh2, e.orig) /\ SameDrain(e.cfg, e.fdrain2, e.odrain)
     /\ e.size = Len(e.orig)
 
 \* ---- C12 (LoadOK is defined in AbsJSON) ------------------------------------------------------------
